@@ -425,3 +425,53 @@ def run_lineuid(chk, F, rid="R-LINEUID"):
            "DocumentBuilder::instance_name_end names the instance line only on the path on which the name is a template with "
            "the right number of arguments: on the others the line stays in template_t::instances with a null uid "
            "(`<instance><name>X(1)</name></instance>` without a template X, silently)", "%s:%s" % (fn["file"], fn["line"]))
+
+
+# ---------------------------------------------------------------------------------------------- R-UIDSRC
+UID_OWNERS = ("variable_t", "function_t", "location_t", "branchpoint_t", "template_t", "instance_t", "instance_line_t",
+              "declarations_t")
+
+
+def run_uidsrc(chk, F, rid="R-UIDSRC"):
+    """The converse of R-SELFREG: the `uid` of a document object is written only with the symbol that a registering
+    add_symbol call has just created for that object.  A uid taken from anywhere else - a symbol found by resolve() - names
+    an object that is the user data of *another* object (round 7: a duplicate LSC instance line was given the symbol of the
+    line declared first; three lines, two symbols)."""
+    chk.rule(rid, "every assignment to the member `uid` of a document object (%s) has as its value a frame_t::add_symbol "
+                  "call that registers that same object, or the uid of the object it is a copy of inside a copy operation "
+                  "of the class itself" % ", ".join(UID_OWNERS))
+    n = 0
+    for fn in sorted(F.functions.values(), key=lambda f: (f.get("file") or "", f.get("line") or 0)):
+        fl = fn.get("file") or ""
+        if fn.get("body") is None or fl.startswith("/usr") or "/test/" in fl:
+            continue
+        for x in walk(fn["body"]):
+            lhs = rhs = None
+            if x.get("k") == "bin" and x.get("op") == "=":
+                lhs, rhs = x["lhs"], x["rhs"]
+            elif x.get("k") == "call" and x.get("ck") == "op" and x.get("op") == "=" and x.get("recv") is not None and x.get("args"):
+                lhs, rhs = x["recv"], x["args"][0]
+            if lhs is None:
+                continue
+            l = _strip(lhs)
+            if not (l.get("k") == "member" and l.get("name") == "uid" and any((l.get("of") or "").endswith(o) for o in UID_OWNERS)):
+                continue
+            n += 1
+            owner = short(_strip(l.get("base"))).replace("this->", "") if l.get("base") is not None else "this"
+            r = _strip(rhs)
+            while isinstance(r, dict) and r.get("k") == "construct" and len(r.get("args", [])) == 1:
+                r = _strip(r["args"][0])
+            ok, why = False, "its value is `%s`" % short(r)[:50]
+            if isinstance(r, dict) and r.get("k") == "call" and r.get("name") == "add_symbol" and len(r.get("args", [])) >= 4:
+                obj, how = _obj_text(r["args"][3])
+                ok = obj == owner
+                why = "the symbol registers `%s`" % obj
+            elif (fn.get("cls") or "").split("::")[-1] in UID_OWNERS and (fn.get("name") in ("operator=",) or
+                                                                        fn.get("name") == (fn.get("cls") or "").split("::")[-1]):
+                ok = True       # copy / move operation of the class
+            chk.ob(rid, "%s|%s.uid" % (fn["q"].replace("UTAP::", ""), owner), ok,
+                   "%s assigns `%s.uid` a symbol that is not the one created for that object (%s): the object stays "
+                   "reachable from the document, but the user data of its symbol is a different object" %
+                   (fn["q"], owner, why), "%s:%s" % (fl, x.get("l")), sample="%s.uid = add_symbol(.., %s)" % (owner, owner))
+    if n < 8:
+        raise AnalysisBroken("R-UIDSRC: only %d assignments to a uid found" % n)
